@@ -831,7 +831,11 @@ func runSchedule(root string, sc *sched, keepOldest int) outcome {
 		final[i] = r.rawSeries(i)
 	}
 	for _, rs := range append([]*readerState{}, r.readers...) {
-		rs.q.Close()
+		if rs.cq != nil {
+			rs.cq.Close()
+		} else {
+			rs.q.Close()
+		}
 	}
 
 	// classify on the Go side (the verdict itself is Coq's holds): literal statement, and
